@@ -86,6 +86,7 @@ Record istate := {
   i_ctx : ctx;
   i_iter : siter;
   i_outidx : list out_index;
+  i_nout : nat;                     (* number of entries of the driver's first answer *)
   i_prev : option (list dentry);
   i_cache : list dentries;          (* Vec used as a stack: head = last element *)
   i_log : list call                 (* ghost: every driver call so far, oldest first *)
@@ -193,7 +194,7 @@ Definition try_new : new_result :=
       | DrvOk outs =>
           match build_output_indices outs with
           | Ok oi => NewOk {| i_ctx := ctx_new (outs_map outs); i_iter := siter_new (tc_stmts tc);
-                              i_outidx := oi; i_prev := None; i_cache := []; i_log := [c] |}
+                              i_outidx := oi; i_nout := length outs; i_prev := None; i_cache := []; i_log := [c] |}
           | Err r => NewErr (IE_Runtime r) [c]
           | Panic s => NewPanic s
           | OOF => NewPanic 0%N
@@ -290,7 +291,7 @@ Inductive getrow_result :=
 | GROOF.
 
 Definition with_iter_ctx (st : istate) (it : siter) (c : ctx) (cache : list dentries) : istate :=
-  {| i_ctx := c; i_iter := it; i_outidx := i_outidx st; i_prev := i_prev st;
+  {| i_ctx := c; i_iter := it; i_outidx := i_outidx st; i_nout := i_nout st; i_prev := i_prev st;
      i_cache := cache; i_log := i_log st |}.
 
 (* self.expand_x(); self.expand_c();  (the fuel of expand_x is one more than the row is wide:
@@ -327,7 +328,7 @@ Definition get_row (fuel : nat) (st : istate) : getrow_result :=
               | Ok expected =>
                   GRRow {| er_line := de_line row; er_inputs := inputs; er_expected := expected;
                            er_update_output := de_update_output row |}
-                        {| i_ctx := i_ctx st1; i_iter := i_iter st1; i_outidx := i_outidx st1;
+                        {| i_ctx := i_ctx st1; i_iter := i_iter st1; i_outidx := i_outidx st1; i_nout := i_nout st1;
                            i_prev := Some (de_entries row); i_cache := rest; i_log := i_log st1 |}
               | Panic s => GRPanic s
               | _ => GRPanic 0%N
@@ -383,9 +384,10 @@ Fixpoint extract_loop (pairs : list (entry_index * out_index)) (outs : list out_
       end
   end.
 
-Definition extract_output_values (oi : list out_index) (outs : list out_entry) (c : ctx)
+(* nout = self.num_outputs: the length of the driver's first answer (after fix 2nd of C13) *)
+Definition extract_output_values (nout : nat) (oi : list out_index) (outs : list out_entry) (c : ctx)
   : ctx * R rterr (list outval) :=
-  let n := num_outputs oi in
+  let n := nout in
   if negb (Nat.eqb (length outs) n)
   then (c, Err (RT_WrongNumberOfOutputs (N.of_nat n) (N.of_nat (length outs))))
   else
@@ -407,7 +409,7 @@ Inductive item :=
 | ItOOF.
 
 Definition with_ctx_log (st : istate) (c : ctx) (log : list call) : istate :=
-  {| i_ctx := c; i_iter := i_iter st; i_outidx := i_outidx st; i_prev := i_prev st;
+  {| i_ctx := c; i_iter := i_iter st; i_outidx := i_outidx st; i_nout := i_nout st; i_prev := i_prev st;
      i_cache := i_cache st; i_log := log |}.
 
 (* Iterator::next *)
@@ -425,7 +427,7 @@ Definition inext (fuel : nat) (st : istate) : item :=
         | DrvErr e => ItErr (IE_Driver e) (with_ctx_log st1 (i_ctx st1) log')
         | DrvOk outs =>
             let c1 := ctx_set_outputs (i_ctx st1) (outs_map outs) in
-            match extract_output_values (i_outidx st1) outs c1 with
+            match extract_output_values (i_nout st1) (i_outidx st1) outs c1 with
             | (c2, Ok vals) => ItRow (into_data_row row vals) (with_ctx_log st1 c2 log')
             | (c2, Err r) => ItErr (IE_Runtime r) (with_ctx_log st1 c2 log')
             | (_, Panic s) => ItPanic s
